@@ -220,6 +220,11 @@ pub fn check(st: &mut Stats, c: &C) {
 
 const YEARS_EXTRA: [i32; 8] = [i32::MIN, i32::MIN + 1, -(1 << 30), -10000, 20000, 1 << 30, i32::MAX - 1, i32::MAX];
 
+/// cases evaluated as the first library call of a fresh thread and (leg `cold`) of a fresh process
+pub fn cold_list() -> Vec<C> {
+    vec![C::Day(0), C::Day(-1), C::Day(1), C::Day(MIN_DAY), C::Day(MAX_DAY), C::Day(11_016), C::Triple(1970, 1, 1), C::Triple(0, 1, 1), C::Triple(1, 1, 1), C::Triple(9999, 12, 31), C::Triple(1900, 2, 29), C::Pair(0, 0), C::Pair(-1, 0)]
+}
+
 pub fn run(ctx: &Ctx, st: &mut Stats) {
     cal();
     let stride = ctx.tier.pick(4001, 1, 1);
@@ -321,7 +326,7 @@ pub fn run(ctx: &Ctx, st: &mut Stats) {
     ctx.par(st, "history: all day numbers descending", true, 0, n_idx, |st, i, _| {
         st.eval(&C::Day(MAX_DAY - (i * stride) as i32), check);
     });
-    cold_threads(st, "history: first call on a fresh thread", vec![C::Day(0), C::Day(-1), C::Day(1), C::Day(MIN_DAY), C::Day(MAX_DAY), C::Day(11_016), C::Triple(1970, 1, 1), C::Triple(0, 1, 1), C::Triple(1, 1, 1), C::Triple(9999, 12, 31), C::Triple(1900, 2, 29), C::Pair(0, 0), C::Pair(-1, 0)], check);
+    cold_threads(st, "history: first call on a fresh thread", cold_list(), check);
     // ordering / hashing on random pairs (consecutive pairs are part of days/all-in-range)
     let npairs = ctx.tier.pick(2_000, 300_000, ctx.big(3_000_000, 40_000_000));
     ctx.par(st, "order/random-pairs", false, 0, npairs, |st, _, rng| {
